@@ -44,7 +44,14 @@ Definition sysB_guarded : sys := sysB_of vote_guarded.
 (* repaired discipline: AuthVerification releases casper's lock around the rollback rendezvous *)
 Definition vote_repaired : list instr :=
   unlock_around lock_Casper_mu gchan_Casper_rollbackCh mchan_RollbackMsg_Reply proc_vote.
-Definition sysA_repaired : sys := sysA_of vote_repaired.
+(* (with the lock released the vote submitters interleave far more: system A is explored in two halves,
+   two vote submitters with one block submitter, and one vote submitter with two block submitters) *)
+Definition sysA_repaired_v2 : sys :=
+  mk [(proc_bp, false); (proc_loop, false); (vote_repaired, true); (vote_repaired, true);
+      (proc_block, true); (proc_read, true)].
+Definition sysA_repaired_b2 : sys :=
+  mk [(proc_bp, false); (proc_loop, false); (vote_repaired, true);
+      (proc_block, true); (proc_block, true); (proc_read, true)].
 Definition sysB_repaired : sys := sysB_of vote_repaired.
 
 Definition fuel : nat := 3000.
